@@ -311,13 +311,6 @@ impl LspContext {
         Ok(())
     }
 
-    fn join(self) -> MosResult<()> {
-        if let Some(io) = self.connection.unwrap().1 {
-            io.join()?;
-        }
-        Ok(())
-    }
-
     fn find_definitions<'a>(
         &'a self,
         analysis: &'a Analysis,
@@ -415,12 +408,18 @@ impl LspServer {
             .unwrap()
             .initialize(server_capabilities)?;
         self.main_loop(initialization_params)?;
-        Arc::try_unwrap(self.context)
-            .ok()
-            .unwrap()
-            .into_inner()
-            .unwrap()
-            .join()?;
+        // Whatever made us stop (a shutdown request, or the client just went away), everybody that depends on us should
+        // stop as well
+        self.lock_context().invoke_shutdown_handlers();
+        // The context is shared with the debug adapter, so we can't take ownership of it. Grab the connection instead,
+        // and wait for its IO threads to finish.
+        let connection = self.lock_context().connection.take();
+        if let Some((connection, io_threads)) = connection {
+            drop(connection);
+            if let Some(io_threads) = io_threads {
+                io_threads.join()?;
+            }
+        }
 
         log::info!("Shutting down MOS language server");
         Ok(())
